@@ -313,10 +313,14 @@ func TestMemoryAdaptive(t *testing.T) {
 		}
 		r := &flow.Rule{Resource: "m", TokenCalculateStrategy: flow.MemoryAdaptive, ControlBehavior: flow.Reject,
 			LowMemUsageThreshold: low, HighMemUsageThreshold: high, MemLowWaterMarkBytes: lowMark, MemHighWaterMarkBytes: highMark}
+		// the plain Threshold field plays no part in a memory-adaptive rule; it may carry anything (a rule converted from a
+		// direct one keeps its old value)
+		r.Threshold = rapid.SampledFrom([]float64{0, 0, 1, float64(high) / 2, float64(high), (float64(high) + float64(low)) / 2, float64(low) + 5}).Draw(t, "strayThreshold")
+		c.ClassIf(r.Threshold > 0, "memory-adaptive-rule-with-a-stray-plain-threshold")
 		if err := flow.IsValidRule(r); err != nil {
 			t.Fatalf("generator produced an invalid rule: %v", err)
 		}
-		c.Op("lowThr=%d highThr=%d lowMark=%d highMark=%d", low, high, lowMark, highMark)
+		c.Op("lowThr=%d highThr=%d lowMark=%d highMark=%d strayThreshold=%v", low, high, lowMark, highMark, r.Threshold)
 		calc := flow.NewMemoryAdaptiveTrafficShapingCalculator(nil, r)
 		// memory readings: below, at, around and above the marks, and a monotone sweep in between
 		var mems []int64
